@@ -238,7 +238,8 @@ def layered(inp):
     src_coordinates = src.coordinates
     if src_coordinates.shape == (2, 3):
         src_coordinates = src_coordinates.ravel('F')
-    elif src_coordinates.shape == (5, ) and hasattr(src, '_length'):
+    elif (src_coordinates.shape == (5, ) and
+            isinstance(src, electrodes.Dipole)):
         src_coordinates = electrodes.point_to_dipole(
                 src_coordinates, src.length).ravel('F')
 
